@@ -10,6 +10,7 @@
 #include "Archive/VolFile.h"
 #include "Archive/ClmFile.h"
 #include <memory>
+#include <sys/resource.h>
 
 using namespace verif;
 using namespace OP2Utility;
@@ -394,7 +395,45 @@ void run_case(Tape& t, Stats& st) {
 	catch (const Violation&) { run_forest(d, st, true); throw; }
 }
 
+// Many streams alive at once (more than any descriptor cache or handle budget of a few hundred would hold open), each first touched by a RELATIVE
+// seek; and several hundred refused slice requests in a row followed by lawful ones.  The descriptor budget of the harness process is lifted for
+// the first part and restored afterwards.
+void many_live_and_storm(Stats& st) {
+	std::vector<uint8_t> src(3000); for (size_t i = 0; i < src.size(); ++i) src[i] = uint8_t(i * 37 + (i >> 8) * 5 + 1);
+	std::string path = scratch_path("c13_many.bin"); write_file(path, src);
+	struct rlimit old; getrlimit(RLIMIT_NOFILE, &old); struct rlimit wide = old; wide.rlim_cur = std::min<rlim_t>(old.rlim_max, 4096); setrlimit(RLIMIT_NOFILE, &wide);
+	{
+		Stream::FileReader f(path);
+		std::vector<std::unique_ptr<Stream::FileSliceReader>> live; const size_t N = 700;
+		for (size_t i = 0; i < N; ++i) { live.push_back(std::make_unique<Stream::FileSliceReader>(f.Slice(i, 200 + i % 7))); if (i % 3 == 0) { uint8_t b; live.back()->Read(&b, 1); V_CHECK(b == src[i], "first byte of slice " << i); } }
+		// oldest first: the first operation after the long pause is a relative seek
+		for (size_t i = 0; i < N; ++i) {
+			auto& r = *live[i]; uint64_t pos = i % 3 == 0 ? 1 : 0;
+			if (i % 2 == 0) { r.SeekForward(5); pos += 5; } else if (pos) { r.SeekBackward(1); pos -= 1; } else { r.SeekForward(0); }
+			V_CHECK(r.Position() == pos, "slice " << i << " of " << N << " live ones: Position() " << r.Position() << " after a relative seek, expected " << pos);
+			uint8_t b[4]; r.Read(b, 4); V_CHECK(!memcmp(b, &src[i + pos], 4), "slice " << i << " of " << N << " live ones delivers other bytes after a relative seek (position " << pos << ")"); pos += 4;
+			r.SeekBackward(2); pos -= 2; V_CHECK(r.Position() == pos && r.Length() == 200 + i % 7, "slice " << i << ": position / length after a second relative seek");
+		}
+		// newest first, once more, with copies taken in between
+		for (size_t k = 0; k < N; k += 5) { size_t i = N - 1 - k; Stream::FileSliceReader c(*live[i]); uint64_t p = c.Position(); uint8_t b; c.SeekForward(3); c.Read(&b, 1); V_CHECK(b == src[i + p + 3], "copy of slice " << i << " among " << N << " live ones"); uint64_t q = live[i]->Position(); live[i]->Read(&b, 1); V_CHECK(b == src[i + q], "slice " << i << " after its copy was used"); }
+		V_CHECK(f.Position() == 0, "the parent of " << N << " slices was moved to " << f.Position());
+	}
+	setrlimit(RLIMIT_NOFILE, &old);
+	{
+		Stream::FileReader f(path); Stream::FileSliceReader sl = f.Slice(100, 500);
+		auto lawful = [&](const char* when) { std::string what; Out o = guarded([&] { auto a = f.Slice(10, 20); uint8_t b; a.Read(&b, 1); V_CHECK(b == src[10], "lawful slice of the file " << when); auto c = sl.Slice(5, 50); c.Read(&b, 1); V_CHECK(b == src[105], "lawful slice of a slice " << when); Stream::FileReader g(path); g.Read(&b, 1); V_CHECK(b == src[0], "lawful open " << when); }, &what); V_CHECK(o == Out::Ok, "a lawful slice / open failed " << when << ": " << what); };
+		for (int i = 0; i < 400; ++i) { V_CHECK(guarded([&] { f.Slice(2990, 20); }) == Out::Err, "slice beyond the file accepted"); V_CHECK(guarded([&] { sl.Slice(490, 20); }) == Out::Err, "slice beyond its parent slice accepted"); V_CHECK(guarded([&] { sl.Slice(~uint64_t(0) - 3, 8); }) == Out::Err, "wrapping slice accepted"); }
+		lawful("after 1200 refused slice requests");
+		for (int i = 0; i < 400; ++i) { sl.Seek(495); V_CHECK(guarded([&] { sl.Slice(20); }) == Out::Err, "Slice(n) beyond the parent accepted"); V_CHECK(sl.Position() == 495, "refused Slice(n) moved the parent"); }
+		lawful("after 400 refused Slice(n) requests");
+		for (int i = 0; i < 400; ++i) guarded([&] { Stream::FileReader g(scratch_path("c13_missing.bin")); });
+		lawful("after 400 refused opens");
+	}
+	remove(path.c_str()); st.cls("many_live_streams_and_refusal_storm"); st.nt(0x13A11);
+}
+
 void run_sweep(Stats& st) {
+	if (sw("many_live_and_storm")) many_live_and_storm(st);
 	// all (s,n) pairs from the boundary table on sources of length 0,1,5, for every parent kind and both slice forms,
 	// followed by a drain of parent and child.
 	for (size_t len : {size_t(0), size_t(1), size_t(5)}) {
